@@ -683,6 +683,16 @@ class Program:
             return UNKNOWN
         _, mod, exprs = r
         if len(exprs) != 1:
+            # assigned several times: a constant only if all values agree
+            vals = [self.fold(mod, e, None, d) for e in exprs]
+            if any(v is UNKNOWN for v in vals):
+                return UNKNOWN
+            try:
+                if all(v == vals[0] and type(v) is type(vals[0])
+                       for v in vals[1:]):
+                    return vals[0]
+            except Exception:
+                pass
             return UNKNOWN
         return self.fold(mod, exprs[0], None, d)
 
